@@ -12,6 +12,7 @@ MAXENUM = {"quick": 5, "thorough": 6}
 
 
 class ParFront(Suite):
+    escalate_cap = 300
     name = "parfront"
     imports = ["Scheme", "Rank", "Partition", "Judge.JOpt"]
     judge = "judge_parfront"
